@@ -114,19 +114,24 @@ def core_c1_name(cls, shape, idx):
     return "core_g%d_s%d_%03d" % (cls, shape, idx)
 
 
-def core_c1(cls, shape, idx, sc, max_mbs=None, excl=False):
+CORE_STUBS_Q = CORE_STUBS.replace("verif_state::idct_channel_contract)", "verif_state::idct_channel_contract_q)")
+
+
+def core_c1(cls, shape, idx, sc, max_mbs=None, excl=False, qobs=False):
     n = sc.nbytes()
     unwind = max(len(sc.mbs) + 3, 4 * cls * cls + 2, 6)
     body = "        let mut script: [u8; %d] = nd();\n" % n
     for off, val in sc.writes():
         body += "        script[%d] = %d;\n" % (off, val)
     if excl:
-        body += "        step_c1x::<%d, %d, %d, true>(script);\n" % (cls, n, shape)
+        body += "        step_c1x::<%d, %d, %d, true, false>(script);\n" % (cls, n, shape)
+    elif qobs:
+        body += "        step_c1q::<%d, %d, %d>(script);\n" % (cls, n, shape)
     else:
         body += "        step_c1::<%d, %d, %d>(script);\n" % (cls, n, shape)
     return ('    /// %s\n    #[cfg_attr(kani, kani::proof)]\n    #[cfg_attr(kani, kani::unwind(%d))]\n%s'
             '    #[cfg_attr(kani, kani::stub(f64::ceil, crate::decoder::state::verif_state::ceil64_class%d))]\n'
-            '    pub fn %s() {\n%s    }\n' % (sc.describe(), unwind, CORE_STUBS, cls, core_c1_name(cls, shape, idx) + ("_x" if excl else ""), body))
+            '    pub fn %s() {\n%s    }\n' % (sc.describe(), unwind, CORE_STUBS_Q if qobs else CORE_STUBS, cls, core_c1_name(cls, shape, idx) + ("_x" if excl else ""), body))
 
 
 def core_zero_name(w, h, shape):
